@@ -101,7 +101,7 @@ theorem instr_to_end (c : Core) (a : Arch) (h : AtFetch c a) (hs : Sampling a) :
   have hop : a.bus.read a.pc = BitVec.ofNat 8 (a.bus.read a.pc).toNat := by simp
   rcases hs with h1 | ⟨h2, h3⟩
   · exact one_byte_to_end c a h _ h1 hop
-  · obtain ⟨n1, hsec, hpi⟩ := prefix_any c a h _ ⟨h2, by omega⟩ hop
+  · obtain ⟨n1, _, hsec, hpi⟩ := prefix_any c a h _ ⟨h2, by omega⟩ hop
     obtain ⟨n2, a', hsp, he, hpi2⟩ := second_to_end _ _ _ hsec _ h3 (by simp)
     refine ⟨n1 + n2, a', ?_, by rw [C01.iter_add]; exact he, by rw [C01.iter_add, hpi2, hpi]⟩
     have h15 : (a.bus.read a.pc).toNat / 16 = 15 := by omega
